@@ -20,6 +20,14 @@ structure Tr where
   resp : Resp
   post : State
 
+/-- a swap message, or the onboarding auto-swap seen as the buy order it is (payer = recipient) -/
+def swapMsgOf (std : Denom) : Op → Option MsgSwap
+  | .swap m => some m
+  | .autoSwap rcpt dIn maxIn out =>
+    some { inAddr := ⟨.lower, rcpt⟩, inDenom := dIn, inAmt := maxIn, outAddr := ⟨.lower, rcpt⟩, outDenom := std, outAmt := out,
+           deadline := 1, isBuy := true }
+  | _ => none
+
 def reserves (s : State) (p : Pool) : Nat × Nat × Nat :=
   (s.bank.get p.escrow s.std, s.bank.get p.escrow p.counter, s.bank.supply p.lpt)
 
@@ -80,6 +88,10 @@ def parties (t : Tr) : List Addr :=
      | some p => [m.sender.bytes, p.escrow].eraseDups
      | none => [m.sender.bytes])
   | .send src dst _ _ => [src, dst].eraseDups
+  | .autoSwap rcpt dIn _ _ =>
+    (match t.pre.poolByCounter dIn with
+     | some p => [rcpt, p.escrow].eraseDups
+     | none => [rcpt])
   | _ => []
 
 /-- rejected ⇒ nothing changed -/
@@ -87,14 +99,14 @@ def c02_rejectedUnchanged (t : Tr) : Bool := t.ok || sameState t.pre t.post
 
 /-- successful swap: coins move only among payer, recipient and escrow; no supply changes; no record changes -/
 def c02_swap (t : Tr) : Bool :=
-  match t.op with
-  | .swap _ =>
+  match swapMsgOf t.pre.std t.op with
+  | some _ =>
     !t.ok ||
     (let A := parties t
      frameOutside t.pre t.post A &&
      (denomsOf t.pre t.post).all (fun d => total t.pre A d == total t.post A d && t.pre.bank.supply d == t.post.bank.supply d) &&
      t.pre.pools == t.post.pools && t.pre.seq == t.post.seq)
-  | _ => true
+  | none => true
 
 /-- successful removal: coins move only between provider and escrow; only the pool-token supply
 changes, by exactly what the provider gave up -/
@@ -172,8 +184,8 @@ def loss (t : Tr) (a : Addr) (d : Denom) : Nat := t.pre.bank.get a d - t.post.ba
 sell: the pool receives exactly the stated input and pays at least the stated minimum;
 buy: the pool pays exactly the stated output and receives at most the stated maximum. -/
 def c08_swapBounds (t : Tr) : Bool :=
-  match t.op with
-  | .swap m =>
+  match swapMsgOf t.pre.std t.op with
+  | some m =>
     !t.ok ||
     (match t.pre.poolByCounter (if m.inDenom == t.pre.std then m.outDenom else m.inDenom) with
      | none => false
@@ -185,15 +197,15 @@ def c08_swapBounds (t : Tr) : Bool :=
        if m.outAddr.bytes == e then true else
        if m.isBuy then paid == m.outAmt.toNat && decide (got ≤ m.inAmt.toNat)
        else got == m.inAmt.toNat && decide (m.outAmt.toNat ≤ paid))
-  | _ => true
+  | none => true
 
 /-- executed swap amounts are within one unit of the exact constant-product-with-fee value,
 rounded in the pool's favour.  With `δ = 10^18 − fee`:
 sell: `bought ≤ in·δ·Y/(X·10^18 + in·δ) < bought + 1`;
 buy : `sold − 1 ≤ X·out·10^18/((Y−out)·δ) < sold`. -/
 def c08_swapRounding (t : Tr) : Bool :=
-  match t.op with
-  | .swap m =>
+  match swapMsgOf t.pre.std t.op with
+  | some m =>
     !t.ok ||
     (match t.pre.poolByCounter (if m.inDenom == t.pre.std then m.outDenom else m.inDenom) with
      | none => false
@@ -212,7 +224,7 @@ def c08_swapRounding (t : Tr) : Bool :=
          -- b·D ≤ a·δ·Y < (b+1)·D,  D = X·10^18 + a·δ
          let D := X * S18 + a * df
          decide (b * D ≤ a * df * Y) && decide (a * df * Y < (b + 1) * D))
-  | _ => true
+  | none => true
 
 /-- addition: at most the stated token and standard amounts enter the pool, at least the stated
 minimum liquidity is minted; live pool: minted and deposit are the pro-rata values rounded in the
@@ -268,12 +280,13 @@ def c09_whitelist (t : Tr) : Bool :=
     ((m.inDenom == t.pre.std) != (m.outDenom == t.pre.std) &&
      decide (0 < t.pre.params.maxSwapOf (if m.inDenom == t.pre.std then m.outDenom else m.inDenom)))
   | .add m => !t.ok || (m.tokDenom != t.pre.std && decide (0 < t.pre.params.maxSwapOf m.tokDenom))
+  | .autoSwap _ dIn _ _ => !t.ok || (dIn != t.pre.std && decide (0 < t.pre.params.maxSwapOf dIn))
   | _ => true
 
 /-- the counter-asset leg of a successful swap is at most its per-swap maximum -/
 def c09_swapCap (t : Tr) : Bool :=
-  match t.op with
-  | .swap m =>
+  match swapMsgOf t.pre.std t.op with
+  | some m =>
     !t.ok ||
     (let tok := if m.inDenom == t.pre.std then m.outDenom else m.inDenom
      match t.pre.poolByCounter tok with
@@ -281,7 +294,7 @@ def c09_swapCap (t : Tr) : Bool :=
      | some p =>
        let moved := if m.inDenom == t.pre.std then loss t p.escrow tok else gain t p.escrow tok
        m.outAddr.bytes == p.escrow || decide (moved ≤ t.pre.params.maxSwapOf tok))
-  | _ => true
+  | none => true
 
 /-- an addition never deposits more standard coin than the cap, nor more than the room under it -/
 def c09_addCap (t : Tr) : Bool :=
